@@ -43,11 +43,21 @@ theorem ml_corrects (d : DistInst) (hd : d ∈ Generated.C03.instances) (hk : d.
     (hdec : d.decided = true) (hadv : d.advD ≠ 0) (m e : Nat) (hm : m < 2 ^ d.k)
     (he : weight d.n e ≤ (d.advD - 1) / 2) :
     mlDecode d.G d.n d.k (encode d.G m ^^^ e) = m := by
-  have hmin := (C03.min_distance d hd hk hdec hadv).1
+  have hmin := (C03.min_distance d hd hk hdec hadv)
   exact DecProofs.nearest_decoder_corrects d.G d.n d.k d.advD ((d.advD - 1) / 2) (mlDecode d.G d.n d.k)
     (fun x => (DecProofs.ml_is_nearest d.G d.n d.k x).1)
     (fun x m' hm' => (DecProofs.ml_is_nearest d.G d.n d.k x).2 m' hm')
     hmin (by omega) m e hm he
+
+/-- the same for the catalogue instances whose distance is decided by an information-set certificate
+(k > 13, or wherever that certificate is cheaper than enumerating the code) -/
+theorem ml_corrects_large (c : InfoInst) (hc : c ∈ Generated.C03.infoInstances) (hadv : c.advD ≠ 0) (m e : Nat)
+    (hm : m < 2 ^ c.k) (he : weight c.n e ≤ (c.advD - 1) / 2) :
+    mlDecode c.G c.n c.k (encode c.G m ^^^ e) = m :=
+  DecProofs.nearest_decoder_corrects c.G c.n c.k c.advD ((c.advD - 1) / 2) (mlDecode c.G c.n c.k)
+    (fun x => (DecProofs.ml_is_nearest c.G c.n c.k x).1)
+    (fun x m' hm' => (DecProofs.ml_is_nearest c.G c.n c.k x).2 m' hm')
+    (C03.min_distance_large c hc) (by omega) m e hm he
 
 /-- **the syndrome-table decoder** (first error pattern, by increasing weight, whose syndrome equals the
 received one; then the encoder's extraction) **returns the message for every error pattern of weight
